@@ -67,7 +67,7 @@ class _DatasetFillerContext:
 
           relative_path_from_split (Path): New shards are created inside
           `dataset_root_path / split / relative_path_from_split`. May not
-          contain "..".
+          contain ".." and may not be absolute.
 
           write_updates (bool): Whether to save progress of written shard info
           files. Defaults to `True`. In theory when set to `False` writing
@@ -82,6 +82,10 @@ class _DatasetFillerContext:
             raise ValueError("The `relative_path_from_split` may not contain "
                              "'..' which could allow accidental directory "
                              "traversal.")
+        if relative_path_from_split.is_absolute():
+            raise ValueError("The `relative_path_from_split` may not be an "
+                             "absolute path which would ignore "
+                             "`dataset_root_path`.")
 
         self._dataset_root_path: Path = dataset_root_path
         self._dataset_structure: DatasetStructure = dataset_structure
